@@ -143,22 +143,7 @@ def run(ctx) -> None:
     check_first_failure(ctx, "C10.R3")
 
     # ---- R7 ---------------------------------------------------------------------
-    REBOUND = {"error_handling": "items always collect their error (the map applies the caller's mode itself)", "_parent_span_id": "items are parented to the map span", "input_values": "keyword inputs are merged into the variations", "values": "replaced by the item's variation", "graph": "positional"}
-    for mp_ in template_methods(db, "map"):
-        run_ = [r_ for r_ in template_methods(db, "run") if r_.is_async == mp_.is_async][0]
-        calls = [c for c in ast.walk(mp_.node) if isinstance(c, ast.Call) and isinstance(c.func, ast.Attribute) and c.func.attr == "run" and src(c.func.value) == "self"]
-        if not calls:
-            raise AnalysisError(f"{mp_.qname}: per-item run call not found")
-        for c in calls:
-            kw = {k.arg: k.value for k in c.keywords}
-            okg = bool(c.args) and src(c.args[0]) == "graph" and len(c.args) >= 2
-            rep.add("C10.R7", f"{mp_.qname}:item-run:graph-and-variation", okg, f"{mp_.module.rel}:{c.lineno}", "items run the same graph on their own variation" if okg else "the per-item run does not receive (graph, <variation>)")
-            for p_ in mp_.param_names:
-                if p_ == "self" or p_ not in run_.param_names or p_ in REBOUND:
-                    continue
-                v = kw.get(p_)
-                ok = isinstance(v, ast.Name) and v.id == p_ and len(db.local_defs(mp_).get(p_, [])) == 0
-                rep.add("C10.R7", f"{mp_.qname}:item-run:{p_}", ok, f"{mp_.module.rel}:{c.lineno}", f"'{p_}' reaches every item unchanged" if ok else f"'{p_}' is {'not forwarded' if v is None else 'forwarded as ' + src(v)} to the per-item run: a mapped item no longer equals the single run with the caller's options")
+    check_map_forwards_options(ctx, "C10.R7")
 
     # ---- R6 ---------------------------------------------------------------------
     cv = db.func("runners._shared.helpers._clone_value")
@@ -258,6 +243,37 @@ def check_first_failure(ctx, rule: str) -> None:
                 if f is smap:
                     okf = okf and dead_when_false(atoms_mode)
                 rep.add(rule, f"{f.qname}:first-failure@{_k(f, n)}", okf, f"{f.module.rel}:{n.lineno}", "raises the first FAILED item's own error, scanning in input order" if okf else "the raised error is not the first failed item's in input order")
+
+
+
+def check_map_forwards_options(ctx, rule: str, only: set[str] | None = None) -> None:
+    """Each item of a map is a single run under the caller's options: every option map shares with run reaches the per-item
+    run unchanged (as a keyword, or as a key of the one dict literal that is unpacked into the call)."""
+    db, rep = ctx.db, ctx.rep
+    REBOUND = {"error_handling": "items always collect their error (the map applies the caller's mode itself)", "_parent_span_id": "items are parented to the map span", "input_values": "keyword inputs are merged into the variations", "values": "replaced by the item's variation", "graph": "positional"}
+    for mp_ in template_methods(db, "map"):
+        run_ = [r_ for r_ in template_methods(db, "run") if r_.is_async == mp_.is_async][0]
+        calls = [c for c in ast.walk(mp_.node) if isinstance(c, ast.Call) and isinstance(c.func, ast.Attribute) and c.func.attr == "run" and src(c.func.value) == "self"]
+        if not calls:
+            raise AnalysisError(f"{mp_.qname}: per-item run call not found")
+        for c in calls:
+            kw = {k.arg: k.value for k in c.keywords if k.arg is not None}
+            # options handed over as one dict literal built in the map (``**item_options``) count key by key
+            for k in c.keywords:
+                if k.arg is None and isinstance(k.value, ast.Name):
+                    ds_ = [d_ for d_ in db.local_defs(mp_).get(k.value.id, []) if isinstance(d_, (ast.Assign, ast.AnnAssign))]
+                    if len(ds_) == 1 and isinstance(ds_[0].value, ast.Dict) and all(isinstance(kk, ast.Constant) and isinstance(kk.value, str) for kk in ds_[0].value.keys):
+                        for kk, vv in zip(ds_[0].value.keys, ds_[0].value.values):
+                            kw.setdefault(kk.value, vv)
+            okg = bool(c.args) and src(c.args[0]) == "graph" and len(c.args) >= 2
+            if only is None:
+              rep.add(rule, f"{mp_.qname}:item-run:graph-and-variation", okg, f"{mp_.module.rel}:{c.lineno}", "items run the same graph on their own variation" if okg else "the per-item run does not receive (graph, <variation>)")
+            for p_ in mp_.param_names:
+                if p_ == "self" or p_ not in run_.param_names or p_ in REBOUND or (only is not None and p_ not in only):
+                    continue
+                v = kw.get(p_)
+                ok = isinstance(v, ast.Name) and v.id == p_ and len(db.local_defs(mp_).get(p_, [])) == 0
+                rep.add(rule, f"{mp_.qname}:item-run:{p_}", ok, f"{mp_.module.rel}:{c.lineno}", f"'{p_}' reaches every item unchanged" if ok else f"'{p_}' is {'not forwarded' if v is None else 'forwarded as ' + src(v)} to the per-item run: a mapped item no longer equals the single run with the caller's options")
 
 
 
